@@ -58,7 +58,9 @@ def run_batch(pid, tier, batch_seed, n_examples, watchdog_s):
         "pool": [],
     }
     digests = set()
-    state = {"target": None, "last_fail": None, "failed_digests": set()}
+    state = {"target": None, "last_fail": None, "failed_digests": set(), "first_fail_at": {}}
+    trace = []  # every case executed in this child, in order (serialised: engines may not
+    #             be trusted to leave a case untouched)
     t_cons0, t_perm0, t_clock0 = (
         kernel.ORACLE.total_consults,
         kernel.ORACLE.total_permuted,
@@ -78,6 +80,7 @@ def run_batch(pid, tier, batch_seed, n_examples, watchdog_s):
                 if case_digest(case) not in state["failed_digests"]:
                     return
         t_case = time.perf_counter()
+        trace.append(json.dumps(case, sort_keys=True))
         try:
             run = kernel.guarded_execute(engine, case, pid)
         except Violation as v:
@@ -88,6 +91,7 @@ def run_batch(pid, tier, batch_seed, n_examples, watchdog_s):
                 return  # keep the violation class stable while shrinking
             state["last_fail"] = (case, v.label, v.message)
             state["failed_digests"].add(case_digest(case))
+            state["first_fail_at"].setdefault(case_digest(case), len(trace) - 1)
             raise
         dt = time.perf_counter() - t_case  # reporting only: never used for a decision
         if dt > out["slowest_s"]:
@@ -143,6 +147,11 @@ def run_batch(pid, tier, batch_seed, n_examples, watchdog_s):
             out["harness_error"] = "".join(
                 traceback.format_exception(type(exc), exc, exc.__traceback__)
             )[-6000:]
+    if out["failure"] is not None:
+        # what ran in this process before the reported case failed for the first time: the
+        # parent uses it if the case turns out not to fail on its own
+        at = state["first_fail_at"].get(case_digest(out["failure"]["case"]), 0)
+        out["failure"]["prelude"] = trace[:at]
     out["digests"] = sorted(digests)
     out["consults"] = kernel.ORACLE.total_consults - t_cons0
     out["permuted"] = kernel.ORACLE.total_permuted - t_perm0
@@ -193,6 +202,66 @@ def _spawn(ctx, fn, args):
     proc.start()
     send.close()
     return proc, recv
+
+
+def _run_sequence(pid, prelude, case):
+    """Execute the prelude cases (outcomes ignored), then the case: -> (label, message) | None."""
+    from .props import PROPS
+
+    engine = PROPS[pid]["engine"]
+    faulthandler.dump_traceback_later(900, exit=True)
+    for text in prelude:
+        try:
+            kernel.guarded_execute(engine, json.loads(text), pid)
+        except Exception:  # noqa: BLE001 - only the state it leaves behind matters here
+            pass
+    res = replay_case(engine, pid, case)
+    faulthandler.cancel_dump_traceback_later()
+    return {"result": res}
+
+
+def minimise_prelude(ctx, pid, prelude, case, label, max_tests=160, max_wall_s=120.0):
+    """ddmin over the runs that preceded a state-dependent failure: the smallest sub-sequence
+    of earlier simulated runs after which `case` still fails with `label`, each candidate
+    tried in a child forked from the pristine parent.  None if even the full prelude does not
+    reproduce the failure."""
+    t0 = time.time()
+    tests = [0]
+
+    def fails(seq):
+        tests[0] += 1
+        proc, conn = _spawn(ctx, _run_sequence, (pid, seq, case))
+        try:
+            got = conn.recv() if conn.poll(900) else None
+        except EOFError:
+            got = None
+        proc.join(5)
+        res = (got or {}).get("result")
+        return res is not None and res[0] == label
+
+    if not fails(prelude):
+        return None
+    seq = list(prelude)
+    n = 2
+    while len(seq) >= 1 and tests[0] < max_tests and time.time() - t0 < max_wall_s:
+        chunk = max(1, len(seq) // n)
+        parts = [seq[i:i + chunk] for i in range(0, len(seq), chunk)]
+        reduced = False
+        # the runs closest to the failure matter most often: try dropping the oldest first
+        for i in range(len(parts)):
+            rest = [c for j, part in enumerate(parts) if j != i for c in part]
+            if tests[0] >= max_tests or time.time() - t0 >= max_wall_s:
+                break
+            if fails(rest):
+                seq = rest
+                n = max(n - 1, 2)
+                reduced = True
+                break
+        if not reduced:
+            if chunk == 1:
+                break
+            n = min(len(seq), n * 2)
+    return seq
 
 
 def _replay_known(pid):
@@ -410,13 +479,40 @@ def check_property(prop, tier, base_seed):
         if not failure.get("state_dependent"):
             proc = fresh_replay()
             reproduced = proc.returncode == 1 and f"label={failure['label']}" in proc.stdout
-        if not reproduced and failure["batch"] >= 0:
+        if not reproduced and failure.get("prelude"):
             # The minimised case alone does not fail in a fresh process: the violation needs
-            # state that earlier simulated runs of the same batch left behind in the code under
-            # test (a module-level cache, say).  A batch is a function of its seed, so the
-            # replay file re-executes the whole batch instead and must end in the same failure.
+            # state that earlier simulated runs of the same batch left behind in the code
+            # under test (a module-level cache, say).  Minimise that history too: the
+            # shortest sub-sequence of the earlier runs after which the case still fails.
+            prelude = minimise_prelude(ctx, pid, failure["prelude"], failure["case"],
+                                       failure["label"])
+            if prelude is not None and not prelude:
+                # the case fails on its own after all (it carries its history inside itself)
+                proc = fresh_replay()
+                reproduced = proc.returncode == 1 and f"label={failure['label']}" in proc.stdout
+            elif prelude is not None:
+                with open(replay_path) as handle:
+                    doc = json.load(handle)
+                doc.update(mode="sequence", prelude=[json.loads(t) for t in prelude],
+                           note="the violation depends on state carried over from earlier "
+                                "simulated runs in the same process: the replay executes the "
+                                "prelude runs (minimised from %d), then the case"
+                                % len(failure["prelude"]))
+                with open(replay_path, "w") as handle:
+                    json.dump(doc, handle, indent=1, sort_keys=True)
+                proc = fresh_replay()
+                reproduced = proc.returncode == 1 and f"label={failure['label']}" in proc.stdout
+                if reproduced:
+                    print(f"note: the minimised case fails only after {len(prelude)} earlier "
+                          f"run(s) in the same process (minimised from "
+                          f"{len(failure['prelude'])}): state is carried over between runs "
+                          f"inside the code under test; the replay file holds that history")
+        if not reproduced and failure["batch"] >= 0:
+            # last resort: a batch is a function of its seed, so the replay file re-executes
+            # the whole batch instead and must end in the same failure
             with open(replay_path) as handle:
                 doc = json.load(handle)
+            doc.pop("prelude", None)
             doc.update(mode="batch", tier=tier, examples=failure["examples"],
                        note="the violation depends on state carried over from earlier simulated "
                             "runs in the same process; the replay re-executes the batch")
@@ -510,7 +606,15 @@ def replay_file(prop, path):
     engine.prepare()
     with open(path) as handle:
         doc = json.load(handle)
-    if doc.get("mode") == "batch":
+    if doc.get("mode") == "sequence":
+        for prior in doc["prelude"]:
+            try:
+                kernel.guarded_execute(engine, prior, pid)
+            except Exception:  # noqa: BLE001 - only the state it leaves behind matters
+                pass
+        print(f"replay {path}: {len(doc['prelude'])} prelude run(s) executed")
+        res = replay_case(engine, pid, doc["case"])
+    elif doc.get("mode") == "batch":
         _hyp()
         out = run_batch(pid, doc["tier"], doc["batch_seed"], doc["examples"], 1100)
         fail = out.get("failure")
